@@ -8,9 +8,9 @@ RULES = ["lowercase", "UPPERCASE", "PascalCase", "camelCase", "snake_case", "SCR
 
 # identifier shapes: one word, many words, digits, single letters, acronyms, underscores in odd places
 FIELD_IDENTS = ["id", "user_id", "first_last_name", "a", "x1", "user_2fa", "http_url", "_private", "a__b", "trailing_",
-                "userName", "myHTTPServer", "URL", "x_y_z", "field1_name2", "i", "__"]
+                "userName", "myHTTPServer", "URL", "x_y_z", "field1_name2", "i", "__", "r#type", "r#async_fn"]
 VARIANT_IDENTS = ["Active", "InProgress", "A", "HTTPError", "V2", "Ok", "MyHTTPServer", "Snake_Case", "lower", "X_Y",
-                  "ABC", "A1B2", "NotFound404", "IoError", "x", "UserID"]
+                  "ABC", "A1B2", "NotFound404", "IoError", "x", "UserID", "r#type", "r#Match"]
 
 # values: plain, with skip / rename inside, with characters that need escaping, non-ASCII
 PLAIN_VALUES = ["customName", "id", "user-name", "type", "Some Value", "", "a b", "x.y", "123", "Option::is_none",
